@@ -908,6 +908,16 @@ func putU32(b []byte, v uint32) {
 
 var errIO = errors.New("injected I/O failure")
 
+// tempErr is an error of the kind deadline-bound connections return: it claims to be temporary and a timeout.
+// A failed Write is a failed Write whatever the error says about itself.
+type tempErr struct{}
+
+func (tempErr) Error() string   { return "injected i/o timeout" }
+func (tempErr) Temporary() bool { return true }
+func (tempErr) Timeout() bool   { return true }
+
+var errTemp error = tempErr{}
+
 func (w *W) c08(groups [][]*driver.Bound) {
 	for _, g := range groups {
 		if isEvo(g) {
@@ -971,6 +981,10 @@ func (w *W) c08(groups [][]*driver.Bound) {
 				for fi := 0; fi < 2*len(faults); fi++ {
 					f := faults[fi/2]
 					fw := &driver.FaultWriter{Err: errIO, FailAt: f.at, Sticky: f.sticky}
+					if (fi/2)%3 == 2 {
+						// every third fault delivers an error that calls itself temporary / a timeout
+						fw.Err = errTemp
+					}
 					var sink io.Writer = fw
 					if fi%2 == 1 {
 						// the same fault through a writer that also offers WriteByte / WriteString
@@ -994,6 +1008,7 @@ func (w *W) c08(groups [][]*driver.Bound) {
 						m["fault_at_write_call"] = f.at
 						m["sticky"] = f.sticky
 						m["writer_offers_WriteByte_WriteString"] = fi%2 == 1
+						m["error_claims_to_be_temporary"] = (fi/2)%3 == 2
 						return m
 					}
 					w.outcome("enc:" + failKind(o))
